@@ -47,7 +47,7 @@ def evidence_C09(agg, tier):
                  "the lazy code path really differed for that value."),
         "fault_kinds_fired": fault_kinds,
         "probes": {k: c.get(k, 0) for k in ("restart_of_parser_prefilled", "restart_twin_of_twin", "pair_reads", "pair_deeps", "pair_basics",
-                                            "pair_reads_after_size0", "twin_read_derives_netloc", "cross_process_twins", "pair_derives", "pair_basics_with_third_url")},
+                                            "pair_reads_after_size0", "twin_read_derives_netloc", "cross_process_twins", "pair_derives", "pair_basics_with_third_url", "pair_basics_with_respelled_third_url")},
         "state_measure": "distinct_states = distinct (route that produced the original, kind of restart, set of memo keys the original held at the restart) triples",
         "restarts_by_route_of_original": {k[len("restart_of_route_"):]: v for k, v in sorted(c.items()) if k.startswith("restart_of_route_")},
         "ops_executed": c.get("ops", 0),
@@ -154,7 +154,10 @@ def evidence_C19(agg, tier):
                  "tail and sampled in between), plus all large-allocation-only points and seeded multi-fault plans. distinct_nontrivial = "
                  "distinct (operation shape, allocation site = domain/kind/size class, boundary offset d, window index) tuples at which a "
                  "fault actually fired. input half: a separate fault-free hostile workload is only monitored for exception types and str()."),
-        "exhaustive_per_operation": True,
+        "exhaustive_per_operation": c.get("operations_enumerated_exhaustively", 0) == c.get("operations", -1),
+        "exhaustive_per_operation_note": ("every (window, allocation index) single-fault point was executed for %d of %d sampled operations; the remaining "
+                                          "operations contain an unquoter window with more than 160 allocations, which is enumerated at head and tail and sampled in between"
+                                          % (c.get("operations_enumerated_exhaustively", 0), c.get("operations", 0))),
         "fault_points_executed": c.get("fault_points_executed", 0),
         "fault_kinds_fired": {k[len("fired_site_"):]: v for k, v in sorted(c.items()) if k.startswith("fired_site_")},
         "faults_fired_total": c.get("faults_fired", 0),
